@@ -173,7 +173,11 @@ func main() {
 		out := lib.EvalOutcome(forest, "%"+n, lib.AsResources(mr1, mr2), nil, []fhirpath.EvaluateOption{evalopts.EnvVariable(n, c)})
 		back[n] = out
 	}
-	if err := w.Write(map[string]any{"id": "vars", "kind": "vars", "vars": back}); err != nil {
+	backB := map[string]any{}
+	for n, c := range perturb(build()) {
+		backB[n] = lib.EvalOutcome(forest, "%"+n, lib.AsResources(mr4), nil, []fhirpath.EvaluateOption{evalopts.EnvVariable(n, c)})
+	}
+	if err := w.Write(map[string]any{"id": "vars", "kind": "vars", "vars": back, "varsB": backB}); err != nil {
 		lib.Fatal("%v", err)
 	}
 	lib.ParallelMap(len(cases), runtime.NumCPU(), func(i int) {
@@ -191,12 +195,12 @@ func main() {
 			opts2 = append(opts2, evalopts.EnvVariable(n, other[n]))
 		}
 		snap := lib.TakeSnapshot([]proto.Message{mr1, mr4, mr2}, colls)
-		out, reeval, cross := lib.EvalCross(forest, g.Text, lib.AsResources(mr1, mr2), func() []fhirpath.EvaluateOption { return opts },
+		out, outB, reeval, cross := lib.EvalCross(forest, g.Text, lib.AsResources(mr1, mr2), func() []fhirpath.EvaluateOption { return opts },
 			lib.AsResources(mr4), func() []fhirpath.EvaluateOption { return opts2 })
 		mut := snap.Report()
 		mut["reeval_differs"] = reeval
 		mut["crosseval_differs"] = cross
-		if err := w.Write(map[string]any{"id": g.ID, "ast": g.Ast, "src": g.Text, "out": out, "kind": "prog", "mut": mut,
+		if err := w.Write(map[string]any{"id": g.ID, "ast": g.Ast, "src": g.Text, "out": out, "outB": outB, "kind": "prog", "mut": mut,
 			"parent": g.Parent, "prop": g.Prop, "depth": g.Depth, "lane": g.Lane}); err != nil {
 			lib.Fatal("%v", err)
 		}
